@@ -39,10 +39,41 @@ THEOREMS = [
     "SynKit.Views.ofBipartiteRaw_toRaw",
     "SynKit.Views.ofSpeciesGraphRaw_toRaw",
     "SynKit.Views.parseItemsFrom_plain",
+    "SynKit.Views.ofBipartiteRaw_prefix_roundtrip",
+    "SynKit.Views.kindOK_of_prefixDisjoint",
+    "SynKit.Views.prefixDisjoint_counterexample",
+    "SynKit.Views.ofBipartiteRaw_attr_names",
+    "SynKit.Views.ofBipartiteRaw_default_rule",
+    "SynKit.Views.ofBipartiteRaw_reads_only",
+    "SynKit.Views.bipRawClaim_roundtrip",
+    "SynKit.Views.bipRawClaim_roundtrip_noid",
+    "SynKit.Views.speciesRawClaim_roundtrip",
+    "SynKit.Views.ofSpeciesGraphRaw_via_forms",
+    "SynKit.Views.ofSpeciesGraphRaw_legacy_stoich",
+    "SynKit.Views.coeffFor_defaults",
+    "SynKit.Views.legacy_counterexample",
+    "SynKit.Views.parseItemsFrom_forms",
+    "SynKit.Views.parseRxnsInput_lines",
     # ties of the raw importers (ViewsRaw.lean, reached by the raw streams) to the importers above
     "SynKit.Views.ofBipartiteRaw_toRaw",
     "SynKit.Views.ofSpeciesGraphRaw_toRaw",
     "SynKit.Views.parseItemsFrom_plain",
+    # claim conditions of the raw streams (SynKitModel/ViewsClaim.lean, decided by views.claim_*) => round trips
+    "SynKit.Views.ofBipartiteRaw_prefix_roundtrip",
+    "SynKit.Views.kindOK_of_prefixDisjoint",
+    "SynKit.Views.prefixDisjoint_counterexample",
+    "SynKit.Views.ofBipartiteRaw_attr_names",
+    "SynKit.Views.ofBipartiteRaw_default_rule",
+    "SynKit.Views.ofBipartiteRaw_reads_only",
+    "SynKit.Views.bipRawClaim_roundtrip",
+    "SynKit.Views.bipRawClaim_roundtrip_noid",
+    "SynKit.Views.speciesRawClaim_roundtrip",
+    "SynKit.Views.ofSpeciesGraphRaw_via_forms",
+    "SynKit.Views.ofSpeciesGraphRaw_legacy_stoich",
+    "SynKit.Views.coeffFor_defaults",
+    "SynKit.Views.legacy_counterexample",
+    "SynKit.Views.parseItemsFrom_forms",
+    "SynKit.Views.parseRxnsInput_lines",
 ]
 
 WS = {0x9, 0xA, 0xB, 0xC, 0xD, 0x1C, 0x1D, 0x1E, 0x1F, 0x20, 0x85, 0xA0, 0x1680, 0x2028, 0x2029, 0x202F, 0x205F, 0x3000} | set(range(0x2000, 0x200B))
@@ -992,28 +1023,24 @@ def raw_bgraph(G, kw):
             "default_rule": kw["default_rule"], "mol": ma is not None}
 
 
-def bip_raw_claim(orig, f, t):
-    """The degraded view still determines the network (so the round trip is claimed): None, or
-    (expected network, ids compared?)."""
-    if not positive(orig) or node_clash(orig, f):
-        return None
-    if t["kind"] != "keep":
-        # nodes without a usable `kind` are classified by prefix: needs string ids, non-empty prefixes,
-        # the same prefixes given to the importer, and no reaction node id starting with the species prefix
-        if f["int"] or not f["sp"] or not f["rp"] or t["imp_sp"] != f["sp"] or t["imp_rp"] != f["rp"]:
-            return None
-        if any((f["rp"] + r["id"]).startswith(f["sp"]) for r in orig["rxns"]):
-            return None
-    if t["sp_label"] in ("strip", "rename_nopass") and (f["int"] or f["sp"] is not None):
-        return None  # label gone and the node id is not the label
-    rules_kept = t["rx_label"] in ("keep", "rename")
-    if not rules_kept and any(r["rule"] != t["default_rule"] for r in orig["rxns"]):
-        return None
-    if not ((f["stoich"] and t["stoich"] in ("keep", "rename")) or all_ones(orig)):
-        return None
-    with_ids = f["eid"] and t["edge_id"] in ("keep", "rename")
-    want = expected_bip(orig, {**f, "mol": f["mol"] and t["mol"] in ("keep", "rename")})
-    return want, with_ids
+def bip_claim_request(H, G0, G, kw, f, req):
+    """Is a round trip claimed for this degraded graph?  Decided by the model (`bipRawClaimWith`, `bipRawIdsKept` of
+    SynKitModel/ViewsClaim.lean; theorems `bipRawClaim_roundtrip`, `bipRawClaim_roundtrip_noid`): it gets the network, the
+    export flags, the importer's options and the degraded graph as the importer reads it — nodes in `G.nodes` order, arcs
+    reaction node by reaction node, incoming then outgoing, in the order the exporter added them (`G0`)."""
+    sa = kw.get("stoich_attr", "stoich")
+    edges, seen = [], set()
+    for n in G0.nodes:
+        if G0.nodes[n].get("kind") != "reaction":
+            continue
+        for u, v in [(u, n) for u in G0.pred[n]] + [(n, v) for v in G0.succ[n]]:
+            if (u, v) in seen:  # only in a clashing view (a node that is species and reaction at once): never claimed
+                continue
+            seen.add((u, v))
+            d = G.edges[u, v]
+            edges.append({"u": u, "v": v, "stoich": (int(d[sa]) if d.get(sa) is not None else None)})
+    return {"cmd": "views.claim_bip_raw", "net": net_of_H(H), "flags": f, "graph": {"nodes": req["graph"]["nodes"], "edges": edges},
+            "sp": req["sp"], "rp": req["rp"], "default_rule": req["default_rule"], "mol": req["mol"]}
 
 
 def eval_bip_raw(ctx, items, tag, count=True):
@@ -1027,9 +1054,12 @@ def eval_bip_raw(ctx, items, tag, count=True):
         G, kw = apply_bip_transform(G0, t)
         prep.append((H, G0, G, kw))
         reqs.append(raw_bgraph(G, kw))
+        reqs.append(bip_claim_request(H, G0, G, kw, f, reqs[-1]))
     reps = ctx.lean().ok(reqs, shards=8)
+    reqs, claims = reqs[0::2], reps[1::2]
+    reps = reps[0::2]
     out = []
-    for (spec, f, t), (H, G0, G, kw), req, m in zip(items, prep, reqs, reps):
+    for (spec, f, t), (H, G0, G, kw), req, m, cl in zip(items, prep, reqs, reps, claims):
         probs = []
         orig = canon_net(H)
         explicit = {n["edge_id"] for n in req["graph"]["nodes"] if n["edge_id"] is not None}
@@ -1043,10 +1073,18 @@ def eval_bip_raw(ctx, items, tag, count=True):
             probs.append(Problem(view="bip_raw", flag=f, kind="diverge", detail={"what": "imported network", "impl": im, "model": m["re"], "kwargs": kw, "route": route}))
         elif "ok" in im and not all(r["id"] in explicit or re.fullmatch(re.escape(r["rule"]) + r"_\d{1,8}", r["id"]) for r in im["ok"]["rxns"]):
             probs.append(Problem(view="bip_raw", flag=f, kind="diverge", detail={"what": "synthesised id is not f'{rule}_{n}' with n < 10**8", "impl": im}))
-        claim = bip_raw_claim(orig, f, t)
+        elif cl["claim"] and a != mark_generated(cl["re"], explicit):
+            # the claim theorems are about the graph with the arcs of a reaction node in in_edges / out_edges order
+            probs.append(Problem(view="bip_raw", flag=f, kind="diverge", detail={"what": "imported network (arcs in the exporter's order)", "impl": im, "model": cl["re"], "kwargs": kw, "route": route}))
+        # claimed? -> decided by the model: (expected molecule labels kept?, ids compared?)
+        claim = (cl["mol"], cl["ids"]) if cl["claim"] else None
         if count:
             ctx.count("bip_raw:route:" + route)
             ctx.count("bip_raw:" + ("claimed" if claim else "no claim (view lost information / heuristic cannot decide)"))
+            if claim:
+                ctx.count("bip_raw:claimed " + ("with ids" if cl["ids"] else "ids aside"))
+            if route != "kind":
+                ctx.count("bip_raw:kind missing somewhere, PrefixDisjoint(importer prefixes)=%s" % cl["prefix_disjoint"])
             ctx.count("bip_raw:re:" + ("ok" if "ok" in im else im["err"]))
             for k in BIP_RAW_MODES:
                 ctx.count("bip_raw:%s=%s" % (k, t[k]))
@@ -1054,8 +1092,8 @@ def eval_bip_raw(ctx, items, tag, count=True):
             ctx.count("bip_raw:ids " + ("int" if f["int"] else "str"))
             ctx.count("bip_raw:stoich written as " + t.get("numtype", "int")), ctx.count("bip_raw:unselected extra attributes=%s" % bool(t.get("extra")))
         if claim:
-            want, with_ids = claim
-            want, got = {"ok": want}, im
+            mol_kept, with_ids = claim
+            want, got = {"ok": expected_bip(orig, {**f, "mol": f["mol"] and mol_kept})}, im
             if not with_ids:
                 want, got = strip_ids(want), strip_ids(got)
             if got != want:
@@ -1170,30 +1208,6 @@ def raw_sgraph(G, kw):
     return {"cmd": "views.species_raw", "graph": {"nodes": nodes, "edges": edges}, "default_rule": kw["default_rule"], "mol": ma is not None}
 
 
-def arcs_uniform(orig):
-    """On every species arc all contributing reactions carry the same pair of coefficients (then the
-    legacy single values `stoich_r` / `stoich_p` say everything)."""
-    seen = {}
-    for r in orig["rxns"]:
-        for a, ca in r["r"]:
-            for b, cb in r["p"]:
-                if seen.setdefault((a, b), (ca, cb)) != (ca, cb):
-                    return False
-    return True
-
-
-def sp_raw_claim(orig, t):
-    if not (two_sided(orig) and positive(orig)):
-        return False
-    if t["via"] in ("strip", "some"):
-        return False
-    if t["relabel"] != "keep" and t["label"] not in ("keep", "rename"):
-        return False
-    if t["maps"] == "keep" or all_ones(orig):
-        return True
-    return t["legacy"] == "keep" and arcs_uniform(orig)
-
-
 def eval_sp_raw(ctx, items, tag, count=True):
     """items: [(spec, include_mol, t)]."""
     from synkit.CRN.Hypergraph import conversion as cv
@@ -1204,9 +1218,13 @@ def eval_sp_raw(ctx, items, tag, count=True):
         G, kw = apply_sp_transform(cv.hypergraph_to_species_graph(H, include_mol=mol), t)
         prep.append((H, G, kw))
         reqs.append(raw_sgraph(G, kw))
+        # is a round trip claimed?  decided by the model (`speciesRawClaim`; theorem `speciesRawClaim_roundtrip`) from the
+        # network and the degraded graph as the importer reads it
+        reqs.append({"cmd": "views.claim_species_raw", "net": net_of_H(H), "mol": mol, "graph": reqs[-1]["graph"]})
     reps = ctx.lean().ok(reqs, shards=8)
+    reqs, claims, reps = reqs[0::2], reps[1::2], reps[0::2]
     out = []
-    for (spec, mol, t), (H, G, kw), req, m in zip(items, prep, reqs, reps):
+    for (spec, mol, t), (H, G, kw), req, m, cl in zip(items, prep, reqs, reps, claims):
         probs = []
         orig = canon_net(H)
         explicit = set()
@@ -1224,9 +1242,11 @@ def eval_sp_raw(ctx, items, tag, count=True):
             probs.append(Problem(view="species_raw", flag=fl, kind="diverge", detail={"what": "rule of a rebuilt reaction is neither on its arcs nor the default", "impl": im, "model_candidates": m["rules"]}))
         elif "ok" in im and any(r["id"] not in explicit and r["rule"] not in {c for k, v in cands.items() if k not in explicit for c in v} for r in im["ok"]["rxns"]):
             probs.append(Problem(view="species_raw", flag=fl, kind="diverge", detail={"what": "rule of a per-arc reaction is not a candidate", "impl": im, "model_candidates": m["rules"]}))
-        claim = sp_raw_claim(orig, t)
+        claim = cl["claim"]
         if count:
             ctx.count("species_raw:" + ("claimed" if claim else "no claim (one-sided / view lost ids, labels or coefficients)"))
+            if t["maps"] != "keep":
+                ctx.count("species_raw:maps missing somewhere, ArcsUniform=%s AllOnes=%s" % (cl["arcs_uniform"], cl["all_ones"]))
             ctx.count("species_raw:re:" + ("ok" if "ok" in im else im["err"]))
             for k in SP_RAW_MODES:
                 ctx.count("species_raw:%s=%s" % (k, t[k]))
@@ -1278,21 +1298,6 @@ def items_of(lines, true_rules, t):
     return list(lines), ex[:-1] + ([] if n % 2 else [None, None]), None  # length mismatch
 
 
-def items_claim(orig, lines, t, pairs):
-    """The parse is told every rule (explicitly on suffix-free lines, or by the suffix winning)."""
-    if pairs is None or not (labels_wf(orig) and positive(orig) and rules_wf(orig)):
-        return False
-    if len(pairs) != len(orig["rxns"]):
-        return False  # a mapping merged equal lines
-    f = t["str"]
-    if not f["rule"] and not f["id"]:
-        return t["rules"] == "true"
-    if f["rule"] and t["suffix"]:
-        # a line without an explicit rule takes the suffix; one with an explicit rule only if the suffix is preferred
-        return t["prefer"] or all(r is None for _, r in pairs)
-    return False
-
-
 def eval_items(ctx, items, tag, count=True):
     """items: [(spec, t)]."""
     from synkit.CRN.Hypergraph import conversion as cv
@@ -1307,9 +1312,12 @@ def eval_items(ctx, items, tag, count=True):
         arg, rules, pairs = items_of(lines, [e.rule for _, e in pairs_src], t)
         prep.append((H, lines, arg, rules, pairs))
         reqs.append({"cmd": "views.parse_items", "items": pairs or [], "suffix": t["suffix"], "prefer": t["prefer"], "default_rule": t["default_rule"]})
+        # is a round trip claimed?  decided by the model (`itemsClaim`; theorem `parseItemsFrom_forms`)
+        reqs.append({"cmd": "views.claim_items", "net": net_of_H(H), "flags": f, "items": pairs or [], "suffix": t["suffix"], "prefer": t["prefer"]})
     reps = ctx.lean().ok(reqs, shards=4)
+    claims, reps = reps[1::2], reps[0::2]
     out = []
-    for (spec, t), (H, lines, arg, rules, pairs), m in zip(items, prep, reps):
+    for (spec, t), (H, lines, arg, rules, pairs), m, cl in zip(items, prep, reps, claims):
         probs = []
         orig = canon_net(H)
         kw = dict(default_rule=t["default_rule"], parse_rule_from_suffix=t["suffix"], prefer_suffix=t["prefer"])
@@ -1327,7 +1335,7 @@ def eval_items(ctx, items, tag, count=True):
         want_m = m if pairs is not None else {"err": "ValueError"}  # documented: `rules` length mismatch
         if im != want_m:
             probs.append(Problem(view="items", flag=t, kind="diverge", detail={"what": "parsed network", "impl": im, "model": want_m, "lines": lines}))
-        claim = items_claim(orig, lines, t, pairs)
+        claim = pairs is not None and cl["claim"]
         if count:
             ctx.count("items:" + ("claimed" if claim else "no claim (a rule is not told / suffix left in the text / lengths differ)"))
             ctx.count("items:re:" + ("ok" if "ok" in im else im["err"]))
